@@ -8,6 +8,7 @@ import WebrtcVerif.Model.NegNeeded
           co / ca   CreateOffer / CreateAnswer             slo / sla  SetLocalDescription(own last offer / answer)
           sro / sra SetRemoteDescription(peer's last offer / answer)      cl  Close
           slp / srp the same with the last answer applied as a provisional answer (type pranswer)
+          slr / srr SetLocalDescription / SetRemoteDescription with type rollback
   out:  per op `<res> <A> <B>` with res 0 nil / 1 error / 2 error after the state was committed / - skipped and
         `<sig><I|B><n|-><c|->:<count>` per side, then `fa <state…> fb <state…>` (signaling state inside each
         handler invocation).  A blocked side prints `?` for [[NegotiationNeeded]] and the count of its last
@@ -51,6 +52,8 @@ def parseOp (tok : String) : Option (Side × WApi) :=
   | [s, "sra"] => do let s ← parseSide s; pure (s, .setRemoteAnswer)
   | [s, "slp"] => do let s ← parseSide s; pure (s, .setLocalPranswer)
   | [s, "srp"] => do let s ← parseSide s; pure (s, .setRemotePranswer)
+  | [s, "slr"] => do let s ← parseSide s; pure (s, .rollbackLocal)
+  | [s, "srr"] => do let s ← parseSide s; pure (s, .rollbackRemote)
   | [s, "cl"] => do let s ← parseSide s; pure (s, .close)
   | _ => none
 
@@ -133,11 +136,13 @@ structure JSt where
   prev : Nat := 0              -- handler invocations so far
   since : Nat := 0             -- … since the last completed exchange (successful SetLocal/SetRemote(answer) here)
   cleared : Bool := false      -- [[NegotiationNeeded]] was seen false after the last fire, without an exchange
+  rolled : Bool := false       -- a rollback brought this side back to stable after the last fire, without an exchange
   touched : Bool := false      -- something that can require negotiation has happened on this side
   closed : Bool := false
   usedTracks : List String := []
   pending : Bool := false      -- a change that requires renegotiation awaits its first stable+drained point
   verdict : Option String := none
+  noted : Option String := none  -- a second fire whose cause is one of the two recorded ones: the walk goes on
 
 def sideOf (tok : String) : String := (tok.splitOn ":").headD ""
 def verbOf (tok : String) : String := ((tok.splitOn ":").drop 1).headD ""
@@ -154,16 +159,26 @@ def walk (me : String) (anyDc : Bool) (j : JSt) (op res : String) (o : Obs) : JS
   let exchange := mine && committed && (verb == "sla" || verb == "sra") && o.sig == 's'
   let since0 := if exchange then 0 else j.since
   let cleared0 := if exchange then false else j.cleared
+  -- a rollback into stable on this side: not a completed exchange (the counter goes on), but remembered as the cause
+  let rollback := mine && okRes && (verb == "slr" || verb == "srr") && o.sig == 's'
+  let rolled0 := if exchange then false else (j.rolled || rollback)
   let delta := o.count - j.prev
   if o.count < j.prev then { j with verdict := some "violated handler-count-decreased" } else
   let j := { j with prev := o.count }
   -- once per needed negotiation
   let since1 := since0 + delta
-  if since1 > 1 then
-    { j with verdict := some (if cleared0 && delta == 1 then "violated second-fire:need-withdrawn-then-renewed"
-                              else "violated second-fire-without-exchange") }
+  if since1 > 1 && !(delta == 1 && (cleared0 || rolled0)) then
+    { j with verdict := some "violated second-fire-without-exchange" }
   else
-  let cleared1 := if delta > 0 then false else (cleared0 || (since1 == 1 && !o.isNN))
+  -- a second fire with a recorded cause (need withdrawn and renewed / rollback into stable) is noted; the walk
+  -- continues from it so that anything else wrong later in the history is still seen
+  let noted := if since1 > 1 && j.noted.isNone then
+      some (if cleared0 then "violated second-fire:need-withdrawn-then-renewed" else "violated second-fire:after-rollback")
+    else j.noted
+  let j := { j with noted := noted }
+  let since1 := if since1 > 1 then 1 else since1
+  let cleared1 := if delta > 0 then false else (cleared0 || (since1 == 1 && !o.isNN && !rolled0))
+  let rolled1 := if delta > 0 then false else rolled0
   let closed := j.closed || (mine && verb == "cl")
   -- changes that require renegotiation (property text): a new track, a transceiver, the first data channel
   let change := mine && okRes &&
@@ -175,7 +190,8 @@ def walk (me : String) (anyDc : Bool) (j : JSt) (op res : String) (o : Obs) : JS
   let pending := (j.pending && !cancel) || change
   let used := if mine && verb == "at" then argOf op 0 :: j.usedTracks else j.usedTracks
   let touched := j.touched || (mine && committed && (verb == "at" || verb == "tr" || verb == "dc" || verb == "sla" || verb == "sra"))
-  let j := { j with since := since1, cleared := cleared1, closed := closed, usedTracks := used, touched := touched }
+  let j := { j with since := since1, cleared := cleared1, rolled := rolled1, closed := closed, usedTracks := used,
+                    touched := touched }
   if closed then { j with pending := false }
   else if o.sig == 's' && o.idle then
     if pending && since1 == 0 then { j with verdict := some "violated needed-not-fired" }
@@ -184,13 +200,14 @@ def walk (me : String) (anyDc : Bool) (j : JSt) (op res : String) (o : Obs) : JS
     else { j with pending := false }
   else { j with pending := pending }
 
-def judgeSide (me : String) (ops : List String) (res : List String) (obs : List Obs) : Option String :=
-  let rec go (ops res : List String) (obs : List Obs) (anyDc : Bool) (j : JSt) : Option String :=
+/-- (a violation that ends the walk, a noted second fire with a recorded cause) -/
+def judgeSide (me : String) (ops : List String) (res : List String) (obs : List Obs) : Option String × Option String :=
+  let rec go (ops res : List String) (obs : List Obs) (anyDc : Bool) (j : JSt) : Option String × Option String :=
     match ops, res, obs with
     | op :: ops, r :: res, o :: obs =>
       let j := walk me anyDc j op r o
       go ops res obs (anyDc || verbOf op == "dc") j
-    | _, _, _ => j.verdict
+    | _, _, _ => (j.verdict, j.noted)
   go ops res obs false {}
 
 def splitTriples : List String → Option (List String × List String × List String)
@@ -219,12 +236,14 @@ def judge (args out : List String) : String :=
         else if tailA.length != (oa.getLast?.map (·.count)).getD 0 || tailB.length != (ob.getLast?.map (·.count)).getD 0
           then "bad-judge"
         else
-          match judgeSide "a" ops rs oa with
-          | some v => v ++ " side=a"
-          | none =>
-            match judgeSide "b" ops rs ob with
-            | some v => v ++ " side=b"
-            | none => "ok"
+          let (ha, na) := judgeSide "a" ops rs oa
+          let (hb, nb) := judgeSide "b" ops rs ob
+          match ha, hb, na, nb with
+          | some v, _, _, _ => v ++ " side=a"
+          | none, some v, _, _ => v ++ " side=b"
+          | none, none, some v, _ => v ++ " side=a"
+          | none, none, none, some v => v ++ " side=b"
+          | none, none, none, none => "ok"
       | _, _ => "bad-judge"
   | _ => "bad-judge"
 
